@@ -24,7 +24,7 @@ pub fn gen_case(rng: &mut Rng, idx: usize, thorough: bool) -> Value {
             let (g, texts) = eng::gen_grammar(rng, idx);
             json!({"kind": "text", "grammar": g.to_json(), "texts": texts.iter().map(|t| vocab::hex(t)).collect::<Vec<_>>(), "seed": rng.next() % 1_000_000_000, "steps": steps})
         }
-        1 => json!({"kind": "refs", "seed": rng.next() % 1_000_000_000, "form": rng.below(6)}),
+        1 => if idx % 2 == 0 { json!({"kind": "refs", "seed": rng.next() % 1_000_000_000, "form": rng.below(6)}) } else { json!({"kind": "multiref", "seed": rng.next() % 1_000_000_000}) },
         _ => json!({"kind": "tok", "seed": rng.next() % 1_000_000_000}),
     }
 }
@@ -87,6 +87,73 @@ pub fn run_case(_ctx: &Ctx, case: &Value, tag: usize, rep: &mut Report, mb: &mut
                 toks.push(t);
             }
             rep.sample(json!({"kind": "text", "grammar": case["grammar"], "steps": toks.len()}));
+        }
+        "multiref" => {
+            // several different references in one grammar: in sequence (separated by literals) and as
+            // alternatives at the same position; every position must allow exactly what *its* reference denotes
+            let texts = vec![b"AB".to_vec(), b"AxB".to_vec()];
+            let (words, eos, specials) = colliding_vocab(&mut rng, &texts);
+            let n = words.len() as u32;
+            let Ok(w) = World::new(words, eos, false, None) else { rep.skip("world"); return; };
+            let mut gen_ref = |rng: &mut Rng| -> (String, Vec<u32>) {
+                match rng.below(5) {
+                    0 => {
+                        // only names of the form <|...|> can be written as a reference
+                        let named: Vec<u32> = specials.iter().copied().filter(|t| w.words[*t as usize][1..].starts_with(b"<|")).collect();
+                        let t = named[rng.below(named.len())];
+                        (String::from_utf8_lossy(&w.words[t as usize][1..]).to_string(), vec![t])
+                    }
+                    1 => { let id = rng.below(n as usize) as u32; (format!("<[{id}]>"), vec![id]) }
+                    2 => { let a = rng.below(n as usize) as u32; let b = (a + rng.below(6) as u32).min(n - 1); (format!("<[{a}-{b}]>"), (a..=b).collect()) }
+                    3 => { let a = rng.below(n as usize) as u32; let b = (a + rng.below(40) as u32).min(n - 1); (format!("<[^{a}-{b}]>"), (0..n).filter(|t| *t < a || *t > b).collect()) }
+                    _ => { let a = rng.below(n as usize) as u32; let c = rng.below(n as usize) as u32; let mut ids = vec![a, c]; ids.sort(); ids.dedup(); (format!("<[{a},{c}]>"), ids) }
+                }
+            };
+            let k = 2 + rng.below(3);
+            let refs: Vec<(String, Vec<u32>)> = (0..k).map(|_| gen_ref(&mut rng)).collect();
+            let alt = gen_ref(&mut rng);
+            let seps = ["\"A\"", "\"B\"", "\"C\"", "\"D\"", "\"E\""];
+            // start: "A" R0 "B" R1 ... | ALT "Z"
+            let mut body = String::new();
+            for (i, r) in refs.iter().enumerate() { body.push_str(&format!("{} {} ", seps[i], r.0)); }
+            let with_alt = rng.chance(1, 2);
+            let g = Gram::Lark(if with_alt { format!("start: seq | alt\nseq: {} {body}\"Q\"\nalt: {} \"Z\"\n", refs[0].0, alt.0) } else { format!("start: {body}\"Q\"\n") });
+            let repro = json!({"case": case, "grammar": g.to_json()});
+            let mut m = w.matcher(&g);
+            if m.is_error() { rep.fail("oracle", "c19:reference-rejected", format!("grammar with several references rejected: {}", eng::err_class(&m.get_error().unwrap_or_default())), repro); return; }
+            rep.evaluations += 1;
+            let check = |m: &mut llguidance::Matcher, exp: &[u32], what: &str, rep: &mut Report| -> bool {
+                let mut exp = exp.to_vec(); exp.sort(); exp.dedup();
+                match eng::mask_of(m) {
+                    Ok(got) if got == exp => true,
+                    Ok(got) => {
+                        let extra: Vec<&u32> = got.iter().filter(|t| !exp.contains(t)).take(6).collect();
+                        let missing: Vec<&u32> = exp.iter().filter(|t| !got.contains(t)).take(6).collect();
+                        rep.fail("oracle", "c19:reference-id-set", format!("{what}: mask has extra {extra:?}, misses {missing:?} (vocab {n})"), repro.clone());
+                        false
+                    }
+                    Err(e) => { rep.fail("oracle", "c19:mask-at-reference", format!("{what}: mask failed: {e}"), repro.clone()); false }
+                }
+            };
+            if with_alt {
+                // first position: union of refs[0] and alt
+                let mut u = refs[0].1.clone(); u.extend(alt.1.iter().copied());
+                if !check(&mut m, &u, &format!("start position ({} | {})", refs[0].0, alt.0), rep) { return; }
+                // take a token only the first alternative denotes, if any
+                let Some(&t) = refs[0].1.iter().find(|t| !alt.1.contains(t) && **t != w.eos) else { rep.skip("no-distinguishing-token"); return; };
+                if m.consume_token(t).is_err() { rep.fail("oracle", "c19:reference-token-rejected", format!("denoted token {t} rejected at start"), repro.clone()); return; }
+            }
+            for (i, r) in refs.iter().enumerate() {
+                let sep = seps[i].as_bytes()[1];
+                if !check(&mut m, &[sep as u32], &format!("text before reference {i}"), rep) { return; }
+                if m.consume_token(sep as u32).is_err() { rep.skip("sep-rejected"); return; }
+                if !check(&mut m, &r.1, &format!("reference {i} {} of {} in one grammar", r.0, refs.len()), rep) { return; }
+                let Some(&t) = r.1.iter().find(|t| **t != w.eos) else { rep.skip("only-eos"); return; };
+                if m.consume_token(t).is_err() { rep.fail("oracle", "c19:reference-token-rejected", format!("{}: denoted token {t} rejected", r.0), repro.clone()); return; }
+            }
+            if !check(&mut m, &[b'Q' as u32], "text after the last reference", rep) { return; }
+            rep.nontrivial(format!("multiref|{}", refs.iter().map(|r| r.0.clone()).collect::<Vec<_>>().join(" ")));
+            rep.sample(json!({"kind": "multiref", "refs": refs.iter().map(|r| r.0.clone()).collect::<Vec<_>>(), "alt": with_alt}));
         }
         "refs" => {
             let texts = vec![b"AB".to_vec(), b"AxB".to_vec()];
